@@ -32,4 +32,5 @@ func runC05(r *hk.Run) {
 	runH3Frames(r, rng.Fork())
 	runH3Fields(r, rng.Fork())
 	runEncoders(r, rng.Fork())
+	runHeaderMap(r, rng.Fork())
 }
